@@ -610,7 +610,13 @@ impl Spaces {
                     if k < cnt {
                         let cfg = ALL_CFGS[(k % 4) as usize];
                         let kk = k / 4;
-                        let v1 = vals[(kk % nv) as usize];
+                        let mut v1 = vals[(kk % nv) as usize];
+                        // quick tier: bind-group numbers above 65536 exhaust memory / time (a recorded finding) and cost
+                        // 5 CPU seconds each; they are explored in the thorough tier only
+                        let group_template = t.contains("space%") || t.contains("bind_group(%") || t.contains("binding(%");
+                        if self.quick && group_template && (kk % nv) as usize >= 21 {
+                            v1 = vals[((kk % nv) % 21) as usize];
+                        }
                         let v2 = if holes < 2 { v1 } else { vals[((kk / nv) % nv) as usize] };
                         // fill holes: first hole v1, second v2, further holes v1
                         let mut out = String::new();
@@ -729,7 +735,8 @@ pub fn run(ctx: &Ctx) -> i32 {
         let total = sp.len(space);
         let chunk = match space {
             "bytes2" | "bytes_cls" | "tokens" | "tokens_cls" | "directives" => 20_000,
-            "nesting" | "soups" => 1,
+            "nesting" => 1,
+            "soups" => soup_counts().len() as u64,
             "defines" => 200,
             "extremes" => 64,
             _ => 2_000,
@@ -738,12 +745,12 @@ pub fn run(ctx: &Ctx) -> i32 {
             let c = sp.case(space, idx);
             (c.family.clone(), c.replay_text())
         };
-        let r = run_isolated(ctx, space, total, chunk, &[tier.clone()], &describe);
+        let r = run_isolated(ctx, space, total, chunk, &[tier.clone()], space == "soups", &describe);
         rep.absorb(space, r);
     }
     // growth oracle
     let describe = |_: u64| -> (String, String) { ("growth".to_string(), "kind: growth\n".to_string()) };
-    let r = run_isolated(ctx, "growth", 1, 1, &[tier.clone()], &describe);
+    let r = run_isolated(ctx, "growth", 1, 1, &[tier.clone()], false, &describe);
     rep.absorb("time_growth_families", r);
     rep.cov("mutant_base_programs", Json::Int((sp.mutants.programs.len() + sp.mutants_repo.programs.len()) as i64));
     if ctx.quick() {
@@ -752,7 +759,7 @@ pub fn run(ctx: &Ctx) -> i32 {
     rep.caps_hit.push("token-class strings of length 4: every 4th string".into());
     rep.assumptions = vec![
         "inputs are valid UTF-8 (the API takes &str / String); non-UTF-8 bytes cannot reach the lexer".into(),
-        format!("a case is a timeout when it runs longer than {} s wall clock in a child process; stack overflows are calibrated on an 8 MiB stack in an optimised build with debug assertions and overflow checks", CASE_TIME_LIMIT_S),
+        format!("a case is a timeout when it uses more than {} s of CPU time in a child process; stack overflows are calibrated on an 8 MiB stack in an optimised build with debug assertions and overflow checks", CASE_TIME_LIMIT_S),
         "arbitrary 4 KB inputs are not enumerable: coverage is all short strings over class representatives, all single-token mutants of the base programs, and all members of the nesting/repetition families".into(),
         "time growth is judged on thread CPU time, minimum of 3 runs, t(2n) <= 16 t(n) + 5 ms along each nesting family".into(),
     ];
